@@ -731,14 +731,15 @@ func (r *run) list(rc *regclient.RegClient, who string, q ask) *evid.Violation {
 	} else {
 		v = r.compareList(who, label, subject, f, rl.Descriptors)
 	}
-	if v != nil && rc == r.e.main && f.none() {
+	if v != nil && rc == r.e.main && r.doneCalls > 0 && r.c.Sys.Kind == "reg-api" && (v.Sig == "filter-drops-matching" || v.Sig == "list-entry-lost") {
+		// entries missing from an answer of a client that earlier made a call with a done context, on a registry
+		// with the referrers API (the fresh client sees them): one signature with or without a filter / cache
+		v.Sig = "list-entry-lost-after-call-with-done-context"
+		v.Msg += fmt.Sprintf(" [%d earlier call(s) through this client were made with a cancelled / expired context]", r.doneCalls)
+	} else if v != nil && rc == r.e.main && f.none() {
 		// the same question through a fresh client is asked after every step: a failure that only the
 		// client under test shows is a property of its state (cache, feature detection)
 		switch {
-		case r.doneCalls > 0:
-			// one signature whatever the cache setting: the client's state was shaped by a call whose context had ended
-			v.Sig += "-after-call-with-done-context"
-			v.Msg += fmt.Sprintf(" [%d earlier call(s) through this client were made with a cancelled / expired context]", r.doneCalls)
 		case r.c.Sys.Cache:
 			v.Sig += "-client-under-test-cached"
 		default:
